@@ -318,6 +318,8 @@ def assign_iterable(lhs, rhs, other, ctx):
         lhs[rhs] = other
         return vy_sum(lhs, ctx=ctx)
     else:
+        # Assign into a copy: the argument may still be referenced elsewhere
+        lhs = deep_copy(lhs) if type(lhs) is LazyList else list(lhs)
         lhs[rhs] = other
         return lhs
 
@@ -1280,7 +1282,7 @@ def gen_from_fn(lhs, rhs, ctx):
     def gen():
         yield from lhs
 
-        made = lhs
+        made = list(lhs)
 
         while True:
             next_item = safe_apply(rhs, *made, ctx=ctx)
